@@ -47,9 +47,18 @@ local macro "triv" : tactic => `(tactic| first | rfl | trivial)
 def LifeFacts.Good (F : LifeFacts) : Prop :=
   F.initStoresNew = true ∧ F.freeDeletesTyped = true ∧ F.freeResetsHandle = true ∧ F.readFileFreesOccupied = true ∧
   F.readFileStoresNew = true ∧ F.readMemAllocsOnlyIfNull = true ∧ F.gridevalReleasesResult = true ∧
-  F.destroyDeletesDerived = true ∧ F.writeMemHandsOverBuffer = true
+  F.destroyDeletesDerived = true ∧ F.writeMemHandsOverBuffer = true ∧ F.gridevalClearsResult = true
 
 instance (F : LifeFacts) : Decidable F.Good := by unfold LifeFacts.Good; infer_instance
+
+/-- The ledger counts exactly what the handles and result slots own, plus `kt` table objects and `kn` grid results
+    that were orphaned by pointer overwrites (`orphanedBy`). -/
+structure InvO (kt kn : Nat) (s : St) : Prop where
+  noub : s.ub = false
+  tables : s.led.tables = s.hs.count .live + kt
+  nodangling : HState.dangling ∉ s.hs
+  ndObjs : s.led.ndObjs = s.rs.count true + kn
+  ndArrays : s.led.ndArrays = s.rs.count true + kn
 
 /-- The ledger counts exactly what the handles and result slots own. -/
 structure Inv (s : St) : Prop where
@@ -58,6 +67,9 @@ structure Inv (s : St) : Prop where
   nodangling : HState.dangling ∉ s.hs
   ndObjs : s.led.ndObjs = s.rs.count true
   ndArrays : s.led.ndArrays = s.rs.count true
+
+theorem Inv.toO {s : St} (h : Inv s) : InvO 0 0 s := ⟨h.noub, h.tables, h.nodangling, h.ndObjs, h.ndArrays⟩
+theorem InvO.toInv {s : St} (h : InvO 0 0 s) : Inv s := ⟨h.noub, h.tables, h.nodangling, h.ndObjs, h.ndArrays⟩
 
 theorem inv_init (nh nr : Nat) : Inv (St.init nh nr) := by
   constructor <;> simp [St.init, List.count_replicate]
@@ -92,7 +104,7 @@ private theorem not_mem_set {l : List HState} {h : Nat} {v : HState} (hn : HStat
   · exact hn h1
   · exact hv h1.symm
 
-private theorem getD_ne_dangling {l : List HState} (hn : HState.dangling ∉ l) (h : Nat) : l.getD h .null ≠ .dangling := by
+theorem getD_ne_dangling {l : List HState} (hn : HState.dangling ∉ l) (h : Nat) : l.getD h .null ≠ .dangling := by
   intro he
   rw [List.getD_eq_getElem?_getD] at he
   cases hh : l[h]? with
@@ -101,8 +113,8 @@ private theorem getD_ne_dangling {l : List HState} (hn : HState.dangling ∉ l) 
     rw [hh] at he; simp at he; subst he
     exact hn (List.mem_of_getElem? hh)
 
-theorem freeStep_inv {F : LifeFacts} (hF : F.Good) {s : St} (hi : Inv s) (h : Nat) :
-    Inv (freeStep F s h) ∧ (freeStep F s h).hs.length = s.hs.length ∧ (freeStep F s h).rs = s.rs ∧
+theorem freeStep_invO {F : LifeFacts} (hF : F.Good) {kt kn : Nat} {s : St} (hi : InvO kt kn s) (h : Nat) :
+    InvO kt kn (freeStep F s h) ∧ (freeStep F s h).hs.length = s.hs.length ∧ (freeStep F s h).rs = s.rs ∧
     (freeStep F s h).led.buffers = s.led.buffers ∧
     hget (freeStep F s h) h = .null ∧ (∀ j, hget s j = .null → hget (freeStep F s h) j = .null) := by
   obtain ⟨_, hF2, hF3, _⟩ := hF
@@ -126,6 +138,13 @@ theorem freeStep_inv {F : LifeFacts} (hF : F.Good) {s : St} (hi : Inv s) (h : Na
       · split <;> rfl
       · rw [← List.getD_eq_getElem?_getD]; exact hj
 
+theorem freeStep_inv {F : LifeFacts} (hF : F.Good) {s : St} (hi : Inv s) (h : Nat) :
+    Inv (freeStep F s h) ∧ (freeStep F s h).hs.length = s.hs.length ∧ (freeStep F s h).rs = s.rs ∧
+    (freeStep F s h).led.buffers = s.led.buffers ∧
+    hget (freeStep F s h) h = .null ∧ (∀ j, hget s j = .null → hget (freeStep F s h) j = .null) := by
+  obtain ⟨h1, h2⟩ := freeStep_invO hF hi.toO h
+  exact ⟨h1.toInv, h2⟩
+
 private theorem rcount_set_true {l : List Bool} {r : Nat} (hlt : r < l.length) (hr : l.getD r false = false) :
     (l.set r true).count true = l.count true + 1 := by
   have hget : l[r] = false := by
@@ -144,58 +163,100 @@ private theorem rcount_set_false {l : List Bool} {r : Nat} (hr : l.getD r false 
     have hpos : 0 < l.count true := List.count_pos_iff.mpr (by rw [← hget]; exact List.getElem_mem hlt)
     simp; omega
 
-/-- one valid step keeps the invariant and the shape of the state -/
-theorem step_inv {F : LifeFacts} (hF : F.Good) {s : St} (hi : Inv s) (op : Op) (hv : opValid s op = true) :
-    Inv (step F s op) ∧ (step F s op).hs.length = s.hs.length ∧ (step F s op).rs.length = s.rs.length := by
+theorem getD_set_self_false {l : List Bool} {r : Nat} : (l.set r false).getD r false = false := by
+  rw [List.getD_eq_getElem?_getD, List.getElem?_set]
+  simp only [if_true]; split <;> rfl
+
+/-- the state after `*result = NULL`: the slot is empty, and if it held a result that result is now an orphan -/
+private theorem clear_slot {kt kn : Nat} {s : St} (hi : InvO kt kn s) (slot : Nat) :
+    let s0 : St := if (true && rget s slot) = true then { s with rs := s.rs.set slot false } else s
+    InvO kt (kn + (if rget s slot then 1 else 0)) s0 ∧ s0.hs = s.hs ∧ s0.rs.length = s.rs.length ∧ rget s0 slot = false ∧
+    s0.led = s.led := by
+  cases hr : rget s slot with
+  | false =>
+    simp only [Bool.and_false, Bool.false_eq_true, if_false, Nat.add_zero]
+    exact ⟨hi, by triv, by triv, hr, by triv⟩
+  | true =>
+    simp only [Bool.and_true, if_true]
+    have hc := rcount_set_false hr
+    refine ⟨⟨hi.noub, hi.tables, hi.nodangling, ?_, ?_⟩, by triv, by simp, getD_set_self_false, by triv⟩
+    · simp only; rw [hi.ndObjs]; omega
+    · simp only; rw [hi.ndArrays]; omega
+
+/-- one step inside what the code defines keeps the (orphan-aware) invariant and the shape of the state -/
+theorem step_invO {F : LifeFacts} (hF : F.Good) {kt kn : Nat} {s : St} (hi : InvO kt kn s) (op : Op) (hv : opDefined s op = true) :
+    InvO (kt + (orphanedBy s op).1) (kn + (orphanedBy s op).2) (step F s op) ∧
+    (step F s op).hs.length = s.hs.length ∧ (step F s op).rs.length = s.rs.length := by
   have hF' := hF
-  obtain ⟨hF1, hF2, hF3, hF4, hF5, hF6, hF7, hF8, hF9⟩ := hF
+  obtain ⟨hF1, hF2, hF3, hF4, hF5, hF6, hF7, hF8, hF9, hF10⟩ := hF
   cases op with
   | init h o =>
-    simp only [opValid, Bool.and_eq_true, decide_eq_true_eq, beq_iff_eq] at hv
-    cases o <;> simp only [step, hF1, if_true]
-    · refine ⟨⟨hi.noub, ?_, not_mem_set hi.nodangling (by simp), hi.ndObjs, hi.ndArrays⟩, by simp, by triv⟩
-      simp only; rw [count_set_of_null hv.1 hv.2, hi.tables]
+    simp only [opDefined, decide_eq_true_eq] at hv
+    cases o <;> simp only [step, hF1, if_true, orphanedBy, Nat.add_zero]
+    · cases hh : hget s h with
+      | null =>
+        simp only [beq_iff_eq, reduceCtorEq, if_false, Nat.add_zero]
+        refine ⟨⟨hi.noub, ?_, not_mem_set hi.nodangling (by simp), hi.ndObjs, hi.ndArrays⟩, by simp, by triv⟩
+        simp only; rw [count_set_of_null hv hh, hi.tables]; omega
+      | live =>
+        simp only [beq_self_eq_true, if_true]
+        have hc := count_set_of_live (v := .live) hh
+        simp only [if_true] at hc
+        refine ⟨⟨hi.noub, ?_, not_mem_set hi.nodangling (by simp), hi.ndObjs, hi.ndArrays⟩, by simp, by triv⟩
+        simp only; rw [hi.tables]; omega
+      | dangling => exact absurd hh (getD_ne_dangling hi.nodangling h)
     · exact ⟨hi, by triv, by triv⟩
     · exact ⟨hi, by triv, by triv⟩
   | free h =>
-    obtain ⟨h1, h2, h3, _⟩ := freeStep_inv hF' hi h
+    obtain ⟨h1, h2, h3, _⟩ := freeStep_invO hF' hi h
     exact ⟨h1, h2, by simp only [step]; rw [h3]⟩
   | readFile h o =>
-    simp only [opValid, decide_eq_true_eq] at hv
-    obtain ⟨h1, h2, h3, _, h5, _⟩ := freeStep_inv hF' hi h
-    cases o <;> simp only [step, hF4, hF5, if_true]
+    simp only [opDefined, opValid, decide_eq_true_eq] at hv
+    obtain ⟨h1, h2, h3, _, h5, _⟩ := freeStep_invO hF' hi h
+    cases o <;> simp only [step, hF4, hF5, if_true, orphanedBy, Nat.add_zero]
     · refine ⟨⟨h1.noub, ?_, not_mem_set h1.nodangling (by simp), ?_, ?_⟩, by simp [h2], by rw [h3]⟩
-      · simp only; rw [count_set_of_null (by rw [h2]; exact hv) h5, h1.tables]
+      · simp only; rw [count_set_of_null (by rw [h2]; exact hv) h5, h1.tables]; omega
       · simp only; exact h1.ndObjs
       · simp only; exact h1.ndArrays
     · exact ⟨h1, h2, by rw [h3]⟩
     · exact ⟨h1, h2, by rw [h3]⟩
   | readMem h o =>
-    simp only [opValid, decide_eq_true_eq] at hv
-    simp only [step]
+    simp only [opDefined, opValid, decide_eq_true_eq] at hv
+    simp only [step, orphanedBy, Nat.add_zero]
     cases hh : hget s h with
     | null =>
       refine ⟨⟨hi.noub, ?_, not_mem_set hi.nodangling (by simp), hi.ndObjs, hi.ndArrays⟩, by simp, by triv⟩
-      simp only; rw [count_set_of_null hv hh, hi.tables]
+      simp only; rw [count_set_of_null hv hh, hi.tables]; omega
     | live => simp only [hF6, if_true]; exact ⟨hi, by triv, by triv⟩
     | dangling => exact absurd hh (getD_ne_dangling hi.nodangling h)
+  | readMemAllocFails h =>
+    simp only [step, orphanedBy, Nat.add_zero]
+    cases hh : hget s h with
+    | dangling => exact absurd hh (getD_ne_dangling hi.nodangling h)
+    | null => exact ⟨hi, by triv, by triv⟩
+    | live => exact ⟨hi, by triv, by triv⟩
   | use h =>
-    simp only [step]
+    simp only [step, orphanedBy, Nat.add_zero]
     cases hh : hget s h with
     | dangling => exact absurd hh (getD_ne_dangling hi.nodangling h)
     | null => exact ⟨hi, by triv, by triv⟩
     | live => exact ⟨hi, by triv, by triv⟩
   | grideval h slot o =>
-    simp only [opValid, Bool.and_eq_true, decide_eq_true_eq, Bool.not_eq_true'] at hv
-    cases o <;> simp only [step, hF7, if_true]
-    · have hc := rcount_set_true hv.1.2 hv.2
-      refine ⟨⟨hi.noub, hi.tables, hi.nodangling, ?_, ?_⟩, by triv, by simp⟩
-      · simp only; rw [hc, hi.ndObjs]
-      · simp only; rw [hc, hi.ndArrays]
-    · exact ⟨hi, by triv, by triv⟩
-    · exact ⟨hi, by triv, by triv⟩
+    simp only [opDefined, Bool.and_eq_true, decide_eq_true_eq] at hv
+    obtain ⟨c1, c2, c3, c4, c5⟩ := clear_slot hi slot
+    simp only [step, hF7, hF10, if_true, orphanedBy]
+    generalize (if (true && rget s slot) = true then ({ s with rs := s.rs.set slot false } : St) else s) = s0 at c1 c2 c3 c4 c5
+    cases o <;> simp only
+    · have hc := rcount_set_true (by rw [c3]; exact hv.2) c4
+      refine ⟨⟨c1.noub, ?_, ?_, ?_, ?_⟩, by simp [c2], by simp [c3]⟩
+      · simp only; rw [c1.tables]; omega
+      · simp only; exact c1.nodangling
+      · simp only; rw [hc, c1.ndObjs]; omega
+      · simp only; rw [hc, c1.ndArrays]; omega
+    · exact ⟨c1, by rw [c2], c3⟩
+    · exact ⟨c1, by rw [c2], c3⟩
   | destroy slot =>
-    simp only [step]
+    simp only [step, orphanedBy, Nat.add_zero]
     cases hr : rget s slot with
     | false => simp only [Bool.false_eq_true, if_false]; exact ⟨hi, by triv, by triv⟩
     | true =>
@@ -205,45 +266,95 @@ theorem step_inv {F : LifeFacts} (hF : F.Good) {s : St} (hi : Inv s) (op : Op) (
       · simp only; rw [hi.ndObjs]; omega
       · simp only; rw [hi.ndArrays]; omega
   | writeMem h o =>
-    cases o <;> simp only [step, hF9, if_true]
+    cases o <;> simp only [step, hF9, if_true, orphanedBy, Nat.add_zero]
     · exact ⟨⟨hi.noub, hi.tables, hi.nodangling, hi.ndObjs, hi.ndArrays⟩, by triv, by triv⟩
     · exact ⟨hi, by triv, by triv⟩
     · exact ⟨hi, by triv, by triv⟩
   | freeBuffer =>
-    simp only [step]
+    simp only [step, orphanedBy, Nat.add_zero]
     exact ⟨⟨hi.noub, hi.tables, hi.nodangling, hi.ndObjs, hi.ndArrays⟩, by triv, by triv⟩
 
-/-- unbounded: the invariant survives every valid op sequence -/
-theorem run_inv {F : LifeFacts} (hF : F.Good) : ∀ (ops : List Op) (s : St), Inv s → validRun F s ops = true →
-    Inv (run F s ops) ∧ (run F s ops).hs.length = s.hs.length ∧ (run F s ops).rs.length = s.rs.length
-  | [], s, hi, _ => ⟨hi, rfl, rfl⟩
-  | op :: ops, s, hi, hv => by
+/-- the usage rule is inside what the code defines, and nothing is orphaned under it -/
+theorem opValid_defined {s : St} {op : Op} (hv : opValid s op = true) : opDefined s op = true ∧ orphanedBy s op = (0, 0) := by
+  cases op with
+  | init h o =>
+    simp only [opValid, Bool.and_eq_true, decide_eq_true_eq, beq_iff_eq] at hv
+    refine ⟨by simp only [opDefined, decide_eq_true_eq]; exact hv.1, ?_⟩
+    cases o <;> simp [orphanedBy, hv.2]
+  | grideval h slot o =>
+    simp only [opValid, Bool.and_eq_true, decide_eq_true_eq, Bool.not_eq_true'] at hv
+    refine ⟨by simp only [opDefined, Bool.and_eq_true, decide_eq_true_eq]; exact hv.1, ?_⟩
+    simp [orphanedBy, hv.2]
+  | free h => exact ⟨hv, rfl⟩
+  | readFile h o => exact ⟨hv, rfl⟩
+  | readMem h o => exact ⟨hv, rfl⟩
+  | readMemAllocFails h => exact ⟨hv, rfl⟩
+  | use h => exact ⟨hv, rfl⟩
+  | destroy slot => exact ⟨hv, rfl⟩
+  | writeMem h o => exact ⟨hv, rfl⟩
+  | freeBuffer => exact ⟨hv, rfl⟩
+
+/-- one valid step keeps the invariant and the shape of the state -/
+theorem step_inv {F : LifeFacts} (hF : F.Good) {s : St} (hi : Inv s) (op : Op) (hv : opValid s op = true) :
+    Inv (step F s op) ∧ (step F s op).hs.length = s.hs.length ∧ (step F s op).rs.length = s.rs.length := by
+  obtain ⟨hd, ho⟩ := opValid_defined hv
+  obtain ⟨h1, h2⟩ := step_invO hF hi.toO op hd
+  rw [ho] at h1
+  exact ⟨h1.toInv, h2⟩
+
+/-- unbounded, inside what the code defines: the ledger is the owned objects plus the orphans of the history -/
+theorem run_invO {F : LifeFacts} (hF : F.Good) : ∀ (ops : List Op) (kt kn : Nat) (s : St), InvO kt kn s → definedRun F s ops = true →
+    InvO (kt + (orphansOf F s ops).1) (kn + (orphansOf F s ops).2) (run F s ops) ∧
+    (run F s ops).hs.length = s.hs.length ∧ (run F s ops).rs.length = s.rs.length
+  | [], kt, kn, s, hi, _ => ⟨hi, rfl, rfl⟩
+  | op :: ops, kt, kn, s, hi, hv => by
+    simp only [definedRun, Bool.and_eq_true] at hv
+    obtain ⟨h1, h2, h3⟩ := step_invO hF hi op hv.1
+    obtain ⟨k1, k2, k3⟩ := run_invO hF ops _ _ (step F s op) h1 hv.2
+    refine ⟨?_, by rw [← h2]; exact k2, by rw [← h3]; exact k3⟩
+    simp only [orphansOf, run, List.foldl_cons]
+    simp only [run, Nat.add_assoc] at k1
+    exact k1
+
+theorem validRun_defined {F : LifeFacts} : ∀ (ops : List Op) (s : St), validRun F s ops = true →
+    definedRun F s ops = true ∧ orphansOf F s ops = (0, 0)
+  | [], _, _ => ⟨rfl, rfl⟩
+  | op :: ops, s, hv => by
     simp only [validRun, Bool.and_eq_true] at hv
-    obtain ⟨h1, h2, h3⟩ := step_inv hF hi op hv.1
-    obtain ⟨k1, k2, k3⟩ := run_inv hF ops (step F s op) h1 hv.2
-    exact ⟨k1, by rw [← h2]; exact k2, by rw [← h3]; exact k3⟩
+    obtain ⟨hd, ho⟩ := opValid_defined hv.1
+    obtain ⟨k1, k2⟩ := validRun_defined ops (step F s op) hv.2
+    refine ⟨by simp only [definedRun, Bool.and_eq_true]; exact ⟨hd, k1⟩, ?_⟩
+    simp only [orphansOf, ho, k2]
+
+/-- unbounded: the invariant survives every valid op sequence -/
+theorem run_inv {F : LifeFacts} (hF : F.Good) (ops : List Op) (s : St) (hi : Inv s) (hv : validRun F s ops = true) :
+    Inv (run F s ops) ∧ (run F s ops).hs.length = s.hs.length ∧ (run F s ops).rs.length = s.rs.length := by
+  obtain ⟨hd, ho⟩ := validRun_defined ops s hv
+  obtain ⟨h1, h2⟩ := run_invO hF ops 0 0 s hi.toO hd
+  rw [ho] at h1
+  exact ⟨h1.toInv, h2⟩
 
 /-! ## The clean-up -/
 
 /-- freeing handles `0..k-1` leaves them NULL, keeps the invariant, the result slots and the buffer count -/
-theorem free_range {F : LifeFacts} (hF : F.Good) (s : St) (hi : Inv s) : ∀ k,
+theorem free_range {F : LifeFacts} (hF : F.Good) {kt kn : Nat} (s : St) (hi : InvO kt kn s) : ∀ k,
     let t := run F s ((List.range k).map .free)
-    Inv t ∧ t.hs.length = s.hs.length ∧ t.rs = s.rs ∧ t.led.buffers = s.led.buffers ∧ ∀ j < k, hget t j = .null
+    InvO kt kn t ∧ t.hs.length = s.hs.length ∧ t.rs = s.rs ∧ t.led.buffers = s.led.buffers ∧ ∀ j < k, hget t j = .null
   | 0 => ⟨hi, by triv, by triv, by triv, fun _ hj => absurd hj (Nat.not_lt_zero _)⟩
   | k + 1 => by
     obtain ⟨h1, h2, h3, h4, h5⟩ := free_range hF s hi k
     simp only [List.range_succ, List.map_append, List.map_cons, List.map_nil, run, List.foldl_append, List.foldl_cons, List.foldl_nil]
     simp only [run] at h1 h2 h3 h4 h5
-    obtain ⟨g1, g2, g3, g4, g5, g6⟩ := freeStep_inv hF h1 k
+    obtain ⟨g1, g2, g3, g4, g5, g6⟩ := freeStep_invO hF h1 k
     refine ⟨g1, by rw [← h2]; exact g2, by rw [← h3]; exact g3, by rw [← h4]; exact g4, ?_⟩
     intro j hj
     rcases Nat.lt_succ_iff_lt_or_eq.mp hj with hlt | heq
     · exact g6 j (h5 j hlt)
     · subst heq; exact g5
 
-theorem destroy_range {F : LifeFacts} (hF : F.Good) (s : St) (hi : Inv s) : ∀ k,
+theorem destroy_range {F : LifeFacts} (hF : F.Good) {kt kn : Nat} (s : St) (hi : InvO kt kn s) : ∀ k,
     let t := run F s ((List.range k).map .destroy)
-    Inv t ∧ t.hs = s.hs ∧ t.rs.length = s.rs.length ∧ t.led.buffers = s.led.buffers ∧ ∀ j < k, rget t j = false
+    InvO kt kn t ∧ t.hs = s.hs ∧ t.rs.length = s.rs.length ∧ t.led.buffers = s.led.buffers ∧ ∀ j < k, rget t j = false
   | 0 => ⟨hi, by triv, by triv, by triv, fun _ hj => absurd hj (Nat.not_lt_zero _)⟩
   | k + 1 => by
     obtain ⟨h1, h2, h3, h4, h5⟩ := destroy_range hF s hi k
@@ -304,14 +415,18 @@ theorem free_buffers {F : LifeFacts} (s : St) : ∀ n,
     simp only [step]
     exact ⟨h1, h2, h3, h4, h5, h6, by rw [h7]; omega⟩
 
-/-- After any valid history, the caller's clean-up empties the ledger (for every `F` whose facts all hold). -/
-theorem balanced_of_good {F : LifeFacts} (hF : F.Good) (nh nr : Nat) (ops : List Op)
-    (hv : validRun F (St.init nh nr) ops = true) :
+/-- After any history inside what the code defines, the caller's clean-up leaves exactly the orphans of that history in
+    the ledger (for every `F` whose facts all hold): nothing else is lost, nothing is deleted twice. -/
+theorem balanced_of_goodO {F : LifeFacts} (hF : F.Good) (nh nr : Nat) (ops : List Op)
+    (hv : definedRun F (St.init nh nr) ops = true) :
     let s := run F (St.init nh nr) ops
     let t := run F s (cleanupOps nh nr s.led.buffers)
-    t.led = {} ∧ t.ub = false ∧ (∀ j, hget t j = .null) ∧ (∀ j, rget t j = false) := by
+    t.led = { tables := (orphansOf F (St.init nh nr) ops).1, ndObjs := (orphansOf F (St.init nh nr) ops).2,
+              ndArrays := (orphansOf F (St.init nh nr) ops).2, buffers := 0 } ∧
+    t.ub = false ∧ (∀ j, hget t j = .null) ∧ (∀ j, rget t j = false) := by
   intro s t
-  obtain ⟨hi, hl, hr⟩ := run_inv hF ops (St.init nh nr) (inv_init nh nr) hv
+  obtain ⟨hi, hl, hr⟩ := run_invO hF ops 0 0 (St.init nh nr) (inv_init nh nr).toO hv
+  simp only [Nat.zero_add] at hi
   have hl' : s.hs.length = nh := by rw [hl]; simp [St.init]
   have hr' : s.rs.length = nr := by rw [hr]; simp [St.init]
   obtain ⟨a1, a2, a3, a4, a5⟩ := free_range hF s hi nh
@@ -331,13 +446,14 @@ theorem balanced_of_good {F : LifeFacts} (hF : F.Good) (nh nr : Nat) (ops : List
     by_cases hj : j < nr
     · exact b5 j hj
     · rw [List.getD_eq_getElem?_getD, List.getElem?_eq_none (by rw [b3, a3, hr']; omega)]; rfl
-  have htab : t.led.tables = 0 := by
-    rw [ht, c4, b1.tables, b2]
-    exact count_live_zero (fun j hj => a5 j (by rw [a2, hl'] at hj; exact hj))
+  have hlive : (run F s ((List.range nh).map .free)).hs.count .live = 0 :=
+    count_live_zero (fun j hj => a5 j (by rw [a2, hl'] at hj; exact hj))
+  have htab : t.led.tables = (orphansOf F (St.init nh nr) ops).1 := by
+    rw [ht, c4, b1.tables, b2, hlive]; omega
   have hcnt : (run F (run F s ((List.range nh).map .free)) ((List.range nr).map .destroy)).rs.count true = 0 :=
     count_true_zero (fun j hj => b5 j (by rw [b3, a3, hr'] at hj; exact hj))
-  have hobj : t.led.ndObjs = 0 := by rw [ht, c5, b1.ndObjs, hcnt]
-  have harr : t.led.ndArrays = 0 := by rw [ht, c6, b1.ndArrays, hcnt]
+  have hobj : t.led.ndObjs = (orphansOf F (St.init nh nr) ops).2 := by rw [ht, c5, b1.ndObjs, hcnt]; omega
+  have harr : t.led.ndArrays = (orphansOf F (St.init nh nr) ops).2 := by rw [ht, c6, b1.ndArrays, hcnt]; omega
   have hbuf : t.led.buffers = 0 := by rw [ht, c7, b4, a4]; omega
   refine ⟨?_, by rw [ht, c3]; exact b1.noub, hnull, hfalse⟩
   cases hled : t.led with
@@ -346,5 +462,16 @@ theorem balanced_of_good {F : LifeFacts} (hF : F.Good) (nh nr : Nat) (ops : List
     simp only at htab hobj harr hbuf
     subst htab hobj harr hbuf
     rfl
+
+/-- After any valid history, the caller's clean-up empties the ledger (for every `F` whose facts all hold). -/
+theorem balanced_of_good {F : LifeFacts} (hF : F.Good) (nh nr : Nat) (ops : List Op)
+    (hv : validRun F (St.init nh nr) ops = true) :
+    let s := run F (St.init nh nr) ops
+    let t := run F s (cleanupOps nh nr s.led.buffers)
+    t.led = {} ∧ t.ub = false ∧ (∀ j, hget t j = .null) ∧ (∀ j, rget t j = false) := by
+  obtain ⟨hd, ho⟩ := validRun_defined ops (St.init nh nr) hv
+  have h := balanced_of_goodO hF nh nr ops hd
+  rw [ho] at h
+  exact h
 
 end PsV.CApi
